@@ -2,14 +2,16 @@
 -- (lualib/nelua/utils/bn.lua -> thirdparty/bint.lua).  One result line per case.
 -- Operands: bints as unsigned hex (< 2^160), Lua integers as signed hex, strings as hex bytes.
 local bn = require 'nelua.utils.bn'
-local SIZE = bn.bits // 32
+local SIZE = #bn.zero()               -- number of limbs
+local WB = bn.bits // SIZE            -- limb width (bint's wordbits), not assumed
+local LIMBHEX = WB // 4
 
 local function limbs_of_hex(s)
-  s = string.rep('0', SIZE*8 - #s) .. s
+  s = string.rep('0', SIZE*LIMBHEX - #s) .. s
   local x = bn.zero()
   local n = #s
   for i=1,SIZE do
-    x[i] = tonumber(s:sub(n - 8*i + 1, n - 8*(i-1)), 16)
+    x[i] = tonumber(s:sub(n - LIMBHEX*i + 1, n - LIMBHEX*(i-1)), 16)
   end
   return x
 end
@@ -201,6 +203,14 @@ local function run(w)
     return hex_of_bytes(bn.tobe(limbs_of_hex(w[2]), w[3] == 't'))
   elseif op == 'todecsci' then
     return str(bn.todecsci(limbs_of_hex(w[2]), nil, w[3] == 't'))
+  elseif op == 'lua_tonumber' then   -- the VM functions Model3.v models, called directly
+    local v = tonumber(bytes_of_hex(w[2]), int_of_hex(w[3]))
+    if v == nil then return 'nil' end
+    return hex_of_int(v)
+  elseif op == 'lua_tostring' then
+    return tostring(int_of_hex(w[2]))
+  elseif op == 'lua_format_x' then
+    return string.format('%x', int_of_hex(w[2]))
   elseif op == 'tobase' then
     return str(bn.tobase(limbs_of_hex(w[2]), int_of_hex(w[3]), flag3(w[4])))
   elseif op == 'frombase' then
